@@ -25,7 +25,9 @@ RULE = ("gen(seed): 1..8 fetches (method, body, header sets built with HTTPHeade
         "credentials, auth_username, timeouts on a per-run time scale, max_redirects) submitted at "
         "generated instants to one client with max_clients 1..3; per fetch a chain of hops "
         "(target kind, Location form, redirect code, connect outcome/delay, response kind/delay, "
-        "DNS delay/failure); late/delay/recv_cap/defer/order tapes.  non-trivial = at least one "
+        "DNS delay/failure/never answering, or an 'odd' last hop whose Location urllib rejects or "
+        "parses unusually; connect_timeout / request_timeout each None, a value or 0 = disabled); "
+        "late/delay/recv_cap/defer/order tapes.  non-trivial = at least one "
         "request waited in the queue, or a redirect was followed, or (>=2 submissions and a timeout "
         "/ connect failure / DNS failure / reset fired); distinct = distinct scenario hash")
 COMPONENTS = {
@@ -165,7 +167,7 @@ def gen(rng, tier, index):
                 "resp": rng.choice(["ok"] * 12 + ["reset_mid", "close_silent", "never"]),
             }
             if j:
-                hop["to"] = rng.choice(TARGETS)
+                hop["to"] = rng.choice(TARGETS[:-1])  # "odd" only as the last hop, below
                 if hop["to"] not in ("rel", "relpath"):
                     if rng.random() < 0.2:
                         hop["userinfo"] = True
@@ -483,6 +485,9 @@ def run(scn, full_log=False):
             if not last:
                 loc = _location(i, j + 1, fetches[i]["hops"][j + 1], targets[i][j + 1])
                 hdr += b"Location: " + loc.encode("latin1") + b"\r\n"
+                nxt = fetches[i]["hops"][j + 1]
+                if nxt.get("to") == "odd":
+                    probe("odd_location_sent_%02d" % (nxt.get("loc", 0) % len(ODD_LOCATIONS)))
             if code != 204:
                 hdr += b"Content-Length: %d\r\n" % (len(b"f%dh%d" % (i, j)) if method == "HEAD"
                                                   else len(body))
